@@ -295,7 +295,14 @@ def Sim.loop : Nat → Sim → List EnvEv → Nat → Sim
     | some t =>
       match m.apply (.tick (t - m.w.now)) with
       | some m' => Sim.loop fuel m' later until_
-      | none => { m with error := some s!"tick {t - m.w.now} at {m.w.now} refused by the model" }
+      | none =>
+        -- a deadline has been reached and `worker_serve` has no action to take (Props/C15 `h2_cancel_deadlock`): the model's
+        -- clock cannot pass that instant - `worker_serve` never returns; the run ends here, in a non-terminal phase ("stuck")
+        let atDeadline := match m.w.phase with
+          | .draining since => decide (since + m.w.cfg.gracefulTimeout ≤ m.w.now)
+          | _ => false
+        if atDeadline && m.w.srvStep.isNone then m
+        else { m with error := some s!"tick {t - m.w.now} at {m.w.now} refused by the model" }
 
 def connPhaseJson : ConnPhase → Json
   | .idle => "idle"
